@@ -101,6 +101,18 @@ def gen_projects(rng, quick):
             for j in rng.sample(tg, min(len(tg), rng.choice([1, 2]))):
                 G.add_platform_files(rng, proj["packages"][j], HOST[0], HOST[1])
             proj["env"] = ENVS[(i // 2) % len(ENVS)]
+        # every third project: source files of a TAGGED package (and a magefile) that are symlinks (same
+        # directory / elsewhere in the module / outside it / a chain), hard links, read-only, oddly
+        # named; a directory with a .go name.  Which files count is what `go list .GoFiles` says.
+        if i % 3 == 2:
+            tg = sorted({s["pkg"] for s in specs if G.oracle_tag(s) is not None})
+            if tg:
+                k0 = (i // 3) * 4
+                G.add_fs_shapes(rng, proj["packages"][rng.choice(tg)], [G.FS_SHAPES[(k0 + q) % len(G.FS_SHAPES)] for q in range(4)])
+        # ... and, in other projects, a magefile of such a shape
+        if i % 6 == 1:
+            mfs = [f["name"] for f in proj["files"]]
+            proj["mf_shapes"] = {rng.choice(mfs): G.FS_SHAPES[(i // 6) % 6]}
         # every fourth project: a TAGGED package without any target (contributes nothing; since fix
         # 904a16e the generated main imports it as `_`); everything else is listed and runs
         if i % 4 == 1:
@@ -222,12 +234,16 @@ def odd_projects(rng, i0):
         # a malformed leading tag line hides a well-formed trailing one
         [spec(0, ["// mage:import a b"], "// mage:import t"), spec(1, ["// c", "// mage:import one two three"], "// mage:import", placement="group_lead"),
          spec(2, ["// mage:import fine"])],
+        # a dangling symlink with a .go name in a tagged package: the go tool itself fails (measured), so does mage
+        [spec(0, ["// mage:import"]), spec(1, ["// mage:import ok"])],
     ]
     out = []
     for k, specs in enumerate(sets):
         npk = 1 + max(s["pkg"] for s in specs)
         proj = G.assemble(rng, "o%04d" % (i0 + k), LAYOUTS[k % len(LAYOUTS)], [json.loads(json.dumps(s)) for s in specs], npk, odd=True)
         G.uniquify(rng, proj)       # all names distinct whatever the tags mean
+        if k == 2:
+            proj["packages"][0]["clutter"] = ["dangling:y.go"]
         out.append(proj)
     return out
 
@@ -251,9 +267,34 @@ def golist(mage, cwd, paths, gofiles=None):
     return res
 
 
+def materialize(mage, proj, outside, files=None):
+    """the project on disk: files, then links / modes / directories.  Returns the project directory."""
+    ops = []
+    rendered = G.render_project(proj, REPO, projlib.PROBE_GO, ops)
+    files = files if files is not None else rendered
+    def real(rel, d):
+        return os.path.join(outside, rel[len("@outside/"):]) if rel.startswith("@outside/") else os.path.join(d, rel)
+    d = mage.project({k: v for k, v in files.items() if not k.startswith("@outside/")}, name=proj["name"], probe=False, gomod=False)
+    for k, v in files.items():
+        if k.startswith("@outside/"):
+            with open(real(k, d), "w") as f:
+                f.write(v)
+    for op in ops:
+        path = real(op[1], d)
+        os.makedirs(os.path.dirname(path), exist_ok=True)
+        if op[0] == "symlink":
+            os.symlink(real(op[2], d) if op[2].startswith("@outside/") else op[2], path)
+        elif op[0] == "hardlink":
+            os.link(real(op[2], d), path)
+        elif op[0] == "chmod":
+            os.chmod(path, op[2])
+        elif op[0] == "mkdir":
+            os.makedirs(path, exist_ok=True)
+    return d
+
+
 def run_project(ctx, mage, proj, outside):
-    files = G.render_project(proj, REPO, projlib.PROBE_GO)
-    d = mage.project(files, name=proj["name"], probe=False, gomod=False)
+    d = materialize(mage, proj, outside)
     cwd, pre, mf = G.start(proj, d, outside)
     obs = {"dir": d, "mf": mf, "cwd": cwd, "args": pre}
     penv = proj.get("env") or {}      # the environment mage is started in (GOOS/GOARCH of another platform ...)
@@ -364,7 +405,7 @@ def run_sequence(ctx, mage, unitbin, seq, outside):
         files = G.render_project(st, REPO, projlib.PROBE_GO)
         name = st["name"]
         if name not in dirs:
-            dirs[name] = mage.project(files, name=name, probe=False, gomod=False)
+            dirs[name] = materialize(mage, st, outside, files)
             disk[name] = dict(files)
             write = {}
         else:
@@ -501,10 +542,18 @@ def run(ctx):
     combos = set()
     dist = {"specs": 0, "untagged": 0, "root": 0, "named": 0}
     by = {"placement": {}, "group_length": {}, "spelling": {}, "kind": {}, "position": {}, "layout": {}, "raw_path_literal": {}, "tagged_package_shape": {}, "environment_of_projects_with_platform_files": {},
-          "same_package_several_times": {}, "size_local_targets": {}, "size_tagged_imports": {}, "size_targets_per_import": {}}
+          "same_package_several_times": {}, "file_system_shape": {}, "size_local_targets": {}, "size_tagged_imports": {}, "size_targets_per_import": {}}
     nerr = 0
     for proj, obs, ast in zip(projects, observations, asts):
         by["layout"][proj["layout"]] = by["layout"].get(proj["layout"], 0) + 1
+        for pk in proj["packages"]:
+            for f in pk["funcs"]:
+                if f.get("shape"):
+                    by["file_system_shape"][f["shape"]] = by["file_system_shape"].get(f["shape"], 0) + 1
+            for c in pk.get("clutter", []):
+                by["file_system_shape"][c] = by["file_system_shape"].get(c, 0) + 1
+        for nm, shp in (proj.get("mf_shapes") or {}).items():
+            by["file_system_shape"]["magefile:" + shp] = by["file_system_shape"].get("magefile:" + shp, 0) + 1
         if proj.get("multi"):
             by["same_package_several_times"][proj["multi"]] = by["same_package_several_times"].get(proj["multi"], 0) + 1
         if proj.get("size"):
